@@ -501,8 +501,17 @@ class AcceptExtract(guards.Extract):
         if k == "tup":
             return "(%s)" % ",".join(self.value_text(e, env) for e in x["es"])
         if k == "if":
-            return "if(%s){%s}{%s}" % (guards.canon(self.cond(x["cond"], dict(env))), self.value_text(x["then"], env),
-                                       self.value_text(x.get("else"), env) if x.get("else") is not None else "")
+            cf_ = self.cond(x["cond"], dict(env))
+            ct_ = guards.canon(cf_)
+            tv_ = self.value_text(x["then"], env)
+            ev_ = self.value_text(x.get("else"), env) if x.get("else") is not None else ""
+            # one orientation for `if c {a} else {b}` and `if !c {b} else {a}`: the condition is written so that it is
+            # false when all its atoms are false
+            bits_ = ct_.rpartition(":")[2]
+            if x.get("else") is not None and re.match(r"^[01]+$", bits_ or "") and bits_[0] == "1":
+                ct_ = guards.canon(f_not(cf_))
+                tv_, ev_ = ev_, tv_
+            return "if(%s){%s}{%s}" % (ct_, tv_, ev_)
         if k == "block":
             e2 = dict(env)
             for s in x.get("stmts") or []:
